@@ -755,24 +755,53 @@ def thread_ops(rng, j, tmpbase):
     return ops
 
 
+def reader_ops(rng, nt, base):
+    """a thread that only reads: load() and get() of the other threads' messages"""
+    ops = []
+    for k in range(rng.choice([2, 3, 4])):
+        ops.append(('load', base + k))
+        if rng.random() < 0.6:
+            ops.append(('get', 10 + rng.randrange(nt)))
+    return ops
+
+
+def write_window(b, t0, chunk):
+    """number of commands of thread 0's write() after which the envelope is stored
+    and the rest (meta / pipeline / announcement) is still to come"""
+    if b != 'disk':
+        return 1
+    env = sf.mk_envelope(*t0[0][1])
+    n = len(sf.nc_dumps(env))
+    return 1 + 1 + (n + chunk - 1) // chunk + 1        # lexists, mkstemp, chunk writes, rename
+
+
 def stream_interleaved(ctx, n):
     rng = ctx.rng
     jobs = []
     for _ in range(n):
         nt = rng.choice([2, 2, 3])
-        threads = [thread_ops(rng, j, 100 * j) for j in range(nt)]
-        sch = [rng.randrange(nt) for _ in range(rng.choice([60, 200, 400]))] + [j for j in range(nt) for _ in range(200)]
-        jobs.append((threads, sch))
+        owners = [thread_ops(rng, j, 100 * j) for j in range(nt)]
+        readers = [reader_ops(rng, nt, 8000)] if rng.random() < 0.6 else []
+        threads = owners + readers
+        na = len(threads)
+        sch = [rng.randrange(na) for _ in range(rng.choice([60, 200, 400]))] + [j for j in range(na) for _ in range(250)]
+        jobs.append((threads, nt, sch, rng.random() < 0.5))
     ids = [10, 11, 12]
     for b in ('disk', 'redis', 'cloud'):
         cfg = dict(codec=True, chunk=11) if b == 'disk' else (dict(mq=True) if b == 'cloud' else {})
+        bjobs = []
+        for threads, nt, sch, targeted in jobs:
+            if targeted and len(threads) > nt:
+                # the reader runs inside the window of thread 0's write (envelope stored, rest pending)
+                sch = [0] * write_window(b, threads[0], 11) + [nt] * 80 + sch
+            bjobs.append((threads, nt, sch))
         if b == 'disk':
-            mouts = ctx.model.batch('c04_sched', [[[[enc_op(o) for o in t] for t in th], sch, ids, 11, []] for th, sch in jobs])
+            mouts = ctx.model.batch('c04_sched', [[[[enc_op(o) for o in t] for t in th], sch, ids, 11, []] for th, nt, sch in bjobs])
         elif b == 'redis':
-            mouts = ctx.model.batch('c15_redis_sched', [[[[enc_op(o) for o in t] for t in th], sch, ids] for th, sch in jobs])
+            mouts = ctx.model.batch('c15_redis_sched', [[[[enc_op(o) for o in t] for t in th], sch, ids] for th, nt, sch in bjobs])
         else:
-            mouts = ctx.model.batch('c15_cloud_sched', [[[[enc_op(o) for o in t] for t in th], sch, ids, 1, []] for th, sch in jobs])
-        for (threads, sch), mo in zip(jobs, mouts):
+            mouts = ctx.model.batch('c15_cloud_sched', [[[[enc_op(o) for o in t] for t in th], sch, ids, 1, []] for th, nt, sch in bjobs])
+        for (threads, nt, sch), mo in zip(bjobs, mouts):
             gates = sf.Gates()
             ad = Adapter(b, cfg, gates=gates)
             try:
@@ -791,7 +820,10 @@ def stream_interleaved(ctx, n):
                     ad.disk.gate = None
                 final = [ad.do(('get', i)) for i in ids]
                 final_load = ad.do(('load', 1))
-                case = dict(stream='interleaved', backend=b, threads=threads, schedule=sch[:len(executed) + 5])
+                case = dict(stream='interleaved', backend=b, threads=threads, readers=len(threads) - nt,
+                            schedule=[i for i, _ in executed])
+                if len(threads) > nt:
+                    ctx.count('interleaved-with-reader:' + b)
                 ctx.evaluated(('il', b, tuple(map(tuple, threads)), tuple(i for i, _ in executed)), nontrivial=True)
                 ctx.count('interleaved:' + b)
                 if stuck:
@@ -812,7 +844,31 @@ def stream_interleaved(ctx, n):
                 # oracle: every thread saw what it would have seen alone; the others' messages undisturbed
                 ref_all = Ref()
                 thread_failed = False
-                for j, t in enumerate(threads):
+                for j, t in enumerate(threads[nt:], nt):
+                    # a reader may or may not see a message that is being written; it must see nothing impossible
+                    for o, got in zip(t, results[j]):
+                        bad = None
+                        if o[0] == 'load':
+                            if got[0] != 'load':
+                                bad = got
+                            else:
+                                for ts, i in got[1]:
+                                    own = threads[i - 10] if 10 <= i < 10 + nt else None
+                                    okts = set() if own is None else {own[0][2]} | {x[2] for x in own if x[0] == 'setts'} | {o[1]}
+                                    if ts not in okts:
+                                        bad = got
+                        elif got[0] == 'got':
+                            own = threads[o[1] - 10]
+                            if (got[1], got[3]) != (own[0][1][0], own[0][1][2]):
+                                bad = got
+                        elif got != ('missing',):
+                            bad = got
+                        if bad is not None:
+                            thread_failed = True
+                            fail(ctx, 'c15:overlap-%s-reader' % b, dict(case, thread=j),
+                                 '%s: %r overlapping the other threads returned %r' % (b, o, bad))
+                            break
+                for j, t in enumerate(threads[:nt]):
                     ref = Ref()
                     want = [ref.step(o) for o in t]
                     for o in t:
@@ -830,7 +886,9 @@ def stream_interleaved(ctx, n):
                 want_load = ref_all.step(('load', 1))
                 if not thread_failed and (final != want_final or final_load != want_load):
                     key = classify(b, ('load', 1), final_load, want_load)
-                    fail(ctx, key if key != 'c15:%s-load' % b else 'c15:overlap-%s-final' % b, case,
+                    if key == 'c15:%s-load' % b:
+                        key = ('c15:overlap-%s-load-disturbs-write' if len(threads) > nt else 'c15:overlap-%s-final') % b
+                    fail(ctx, key, case,
                              '%s: after overlapped operations get/load return %r / %r, expected %r / %r'
                              % (b, final, final_load, want_final, want_load))
             finally:
@@ -880,6 +938,36 @@ def replay(ctx, case):
         try:
             for o, form in zip(ops, c.get('forms') or ['set'] * len(ops)):
                 print(o[0], o[1:3], '->', ad.do(o, form), ' reference:', ref.step(o))
+        finally:
+            ad.close()
+    elif c.get('stream') == 'interleaved':
+        def tup(o):
+            return tuple(tup(x) if isinstance(x, list) else (bytes.fromhex(x['hex']) if isinstance(x, dict) and 'hex' in x else x) for x in o)
+        threads = [[tup(o) for o in t] for t in c['threads']]
+        b = c['backend']
+        cfg = dict(codec=True, chunk=11) if b == 'disk' else (dict(mq=True) if b == 'cloud' else {})
+        gates = sf.Gates()
+        ad = Adapter(b, cfg, gates=gates)
+        try:
+            results = [[] for _ in threads]
+
+            def body(j):
+                def run():
+                    for o in threads[j]:
+                        results[j].append(ad.do(o, 'set'))
+                return run
+            gs, executed = sf.run_threads([body(j) for j in range(len(threads))], c['schedule'] + [j for j in range(len(threads)) for _ in range(300)], gates)
+            sf.kill_all(gs)
+            gates.enabled = False
+            if ad.disk is not None:
+                ad.disk.gate = None
+            for i, d in executed[:400]:
+                print('  thread %d: %s' % (i, (d[0],) + tuple(d[1:3])))
+            for j, t in enumerate(threads):
+                ref = Ref()
+                print('thread', j, 'returned', results[j])
+                print('     alone it returns', [ref.step(o) for o in t] if j < len(threads) - c.get('readers', 0) else '(reader)')
+            print('afterwards: get ->', [ad.do(('get', i)) for i in (10, 11, 12)], ' load ->', ad.do(('load', 1)))
         finally:
             ad.close()
     elif 'rounds' in c:
